@@ -42,35 +42,60 @@ Qed.
 Definition wanted_column (d : doc) (pc : option Z) : Z :=
   match pc with None => cursor_position_col d | Some c => c end.
 
+Lemma up_pos_in_bounds d count pc : 0 <= dcur d + up_pos d count pc <= len (dtext d).
+Proof.
+  unfold up_pos.
+  match goal with |- context [translate_row_col_to_index d ?a ?b] =>
+    pose proof (C02c_row_col_to_index_bounds d a b) end. lia.
+Qed.
+
+Lemma down_pos_in_bounds d count pc : 0 <= dcur d + down_pos d count pc <= len (dtext d).
+Proof.
+  unfold down_pos.
+  match goal with |- context [translate_row_col_to_index d ?a ?b] =>
+    pose proof (C02c_row_col_to_index_bounds d a b) end. lia.
+Qed.
+
+(* no assertion is left: every count has an answer; a negative count is the
+   opposite motion *)
+Lemma up_down_total d count pc :
+  (exists r, get_cursor_up_position d count pc = Some r) /\
+  (exists r, get_cursor_down_position d count pc = Some r).
+Proof.
+  unfold get_cursor_up_position, get_cursor_down_position.
+  destruct (count <? 0); split; eexists; reflexivity.
+Qed.
+
+Lemma up_down_negative d count pc :
+  count < 0 ->
+  get_cursor_up_position d count pc = get_cursor_down_position d (- count) pc /\
+  get_cursor_down_position d count pc = get_cursor_up_position d (- count) pc.
+Proof.
+  intros Hc. unfold get_cursor_up_position, get_cursor_down_position.
+  destruct (count <? 0) eqn:E1; [|lia]. destruct (- count <? 0) eqn:E2; [lia|]. split; reflexivity.
+Qed.
+
 Lemma up_in_bounds d count pc r :
   get_cursor_up_position d count pc = Some r -> 0 <= dcur d + r <= len (dtext d).
 Proof.
-  unfold get_cursor_up_position, up_pos. destruct (count <? 1); [discriminate|].
-  intros H; injection H as <-.
-  match goal with |- context [translate_row_col_to_index d ?a ?b] =>
-    pose proof (C02c_row_col_to_index_bounds d a b) end. lia.
+  unfold get_cursor_up_position. destruct (count <? 0); intros H; injection H as <-;
+    [apply down_pos_in_bounds|apply up_pos_in_bounds].
 Qed.
 
 Lemma down_in_bounds d count pc r :
   get_cursor_down_position d count pc = Some r -> 0 <= dcur d + r <= len (dtext d).
 Proof.
-  unfold get_cursor_down_position, down_pos. destruct (count <? 1); [discriminate|].
-  intros H; injection H as <-.
-  match goal with |- context [translate_row_col_to_index d ?a ?b] =>
-    pose proof (C02c_row_col_to_index_bounds d a b) end. lia.
+  unfold get_cursor_down_position. destruct (count <? 0); intros H; injection H as <-;
+    [apply up_pos_in_bounds|apply down_pos_in_bounds].
 Qed.
 
-(* the target is (row - min(count, row), min(preferred, len of that line)) *)
-Lemma up_lands d count pc r :
-  valid d -> get_cursor_up_position d count pc = Some r ->
+Lemma up_pos_lands d count pc :
+  valid d -> 0 <= count ->
   let row' := Z.max 0 (cursor_position_row d - count) in
-  1 <= count /\
-  translate_index_to_position d (dcur d + r) =
+  translate_index_to_position d (dcur d + up_pos d count pc) =
   (row', Z.max 0 (Z.min (wanted_column d pc) (len (nth (Z.to_nat row') (lines d) [])))).
 Proof.
-  intros Hv. unfold get_cursor_up_position, up_pos. cbv zeta.
-  destruct (count <? 1) eqn:E; [discriminate|]. intros H; injection H as <-.
-  split; [lia|].
+  intros Hv Hc. unfold up_pos. cbv zeta.
   pose proof (cursor_row_bounds d Hv) as Hrow.
   replace (dcur d + (translate_row_col_to_index d (Z.max 0 (cursor_position_row d - count))
                        (match pc with None => cursor_position_col d | Some c => c end) - dcur d))
@@ -83,16 +108,13 @@ Proof.
   reflexivity.
 Qed.
 
-Lemma down_lands d count pc r :
-  valid d -> get_cursor_down_position d count pc = Some r ->
+Lemma down_pos_lands d count pc :
+  valid d -> 0 <= count ->
   let row' := Z.min (cursor_position_row d + count) (line_count d - 1) in
-  1 <= count /\
-  translate_index_to_position d (dcur d + r) =
+  translate_index_to_position d (dcur d + down_pos d count pc) =
   (row', Z.max 0 (Z.min (wanted_column d pc) (len (nth (Z.to_nat row') (lines d) [])))).
 Proof.
-  intros Hv. unfold get_cursor_down_position, down_pos. cbv zeta.
-  destruct (count <? 1) eqn:E; [discriminate|]. intros H; injection H as <-.
-  split; [lia|].
+  intros Hv Hc. unfold down_pos. cbv zeta.
   pose proof (cursor_row_bounds d Hv) as Hrow.
   replace (dcur d + (translate_row_col_to_index d (cursor_position_row d + count)
                        (match pc with None => cursor_position_col d | Some c => c end) - dcur d))
@@ -100,6 +122,27 @@ Proof.
     by (unfold wanted_column; lia).
   pose proof (row_col_to_index_position d (cursor_position_row d + count) (wanted_column d pc)) as P.
   cbv zeta in P. rewrite P by lia. reflexivity.
+Qed.
+
+(* the target is (row - min(count, row), min(preferred, len of that line)) *)
+Lemma up_lands d count pc r :
+  valid d -> 0 <= count -> get_cursor_up_position d count pc = Some r ->
+  let row' := Z.max 0 (cursor_position_row d - count) in
+  translate_index_to_position d (dcur d + r) =
+  (row', Z.max 0 (Z.min (wanted_column d pc) (len (nth (Z.to_nat row') (lines d) [])))).
+Proof.
+  intros Hv Hc. unfold get_cursor_up_position. destruct (count <? 0) eqn:E; [lia|].
+  intros H; injection H as <-. now apply up_pos_lands.
+Qed.
+
+Lemma down_lands d count pc r :
+  valid d -> 0 <= count -> get_cursor_down_position d count pc = Some r ->
+  let row' := Z.min (cursor_position_row d + count) (line_count d - 1) in
+  translate_index_to_position d (dcur d + r) =
+  (row', Z.max 0 (Z.min (wanted_column d pc) (len (nth (Z.to_nat row') (lines d) [])))).
+Proof.
+  intros Hv Hc. unfold get_cursor_down_position. destruct (count <? 0) eqn:E; [lia|].
+  intros H; injection H as <-. now apply down_pos_lands.
 Qed.
 
 (* ---------------------------------------------------------------------- *)
@@ -141,36 +184,44 @@ Proof.
   rewrite len_rev in H. exact H.
 Qed.
 
-(* on a line that has a non-blank character the target stays on the line
-   (strictly before its end) *)
-Lemma last_non_blank_partial d :
-  valid d -> rstrip_by is_space (current_line d) <> [] ->
+(* after fix 1019c4b: always on the current line and inside the text; strictly
+   before the end of the line when the line has a non-blank character *)
+Lemma last_non_blank_same_line d :
+  valid d ->
   - len (current_line_before_cursor d) <= last_non_blank_of_current_line_position d
-    < len (current_line_after_cursor d) /\
-  0 <= dcur d + last_non_blank_of_current_line_position d < len (dtext d).
+    <= len (current_line_after_cursor d) /\
+  0 <= dcur d + last_non_blank_of_current_line_position d <= len (dtext d) /\
+  (rstrip_by is_space (current_line d) <> [] ->
+   last_non_blank_of_current_line_position d < len (current_line_after_cursor d)) /\
+  (rstrip_by is_space (current_line d) = [] ->
+   last_non_blank_of_current_line_position d = - len (current_line_before_cursor d)).
 Proof.
-  intros Hv Hne. unfold last_non_blank_of_current_line_position.
+  intros Hv. unfold last_non_blank_of_current_line_position.
   destruct (cursor_nums d Hv) as (Hc & Hb & Ha).
   pose proof (len_rstrip_by is_space (current_line d)) as Hl. rewrite len_current_line in Hl.
-  assert (1 <= len (rstrip_by is_space (current_line d))).
-  { destruct (rstrip_by is_space (current_line d)) as [|x l]; [congruence|].
-    rewrite len_cons. pose proof (len_nonneg l). lia. }
-  rewrite Hc. lia.
+  rewrite Hc. split; [lia|]. split; [lia|]. split.
+  - intros Hne.
+    assert (1 <= len (rstrip_by is_space (current_line d))).
+    { destruct (rstrip_by is_space (current_line d)) as [|x l]; [congruence|].
+      rewrite len_cons. pose proof (len_nonneg l). lia. }
+    lia.
+  - intros ->. change (len (@nil Z)) with 0. lia.
 Qed.
 
-(* ... and on a blank line it does not: finding F9 / C02-F1 *)
-Lemma last_non_blank_in_bounds_refuted :
+(* the function as it stood before the fix left the text / the line on a
+   blank line: finding C02-F1 (DESIGN F9) *)
+Lemma last_non_blank_pinned_in_bounds_refuted :
   exists d, valid d /\
-    ~ (0 <= dcur d + last_non_blank_of_current_line_position d <= len (dtext d)).
+    ~ (0 <= dcur d + last_non_blank_of_current_line_position_pinned d <= len (dtext d)).
 Proof.
   exists (mkdoc [] 0). split; [unfold valid; cbn; lia|].
   vm_compute. intros [H _]. apply H. reflexivity.
 Qed.
 
-Lemma last_non_blank_same_line_refuted :
+Lemma last_non_blank_pinned_same_line_refuted :
   exists d, valid d /\
-    0 <= dcur d + last_non_blank_of_current_line_position d <= len (dtext d) /\
-    ~ (- len (current_line_before_cursor d) <= last_non_blank_of_current_line_position d).
+    0 <= dcur d + last_non_blank_of_current_line_position_pinned d <= len (dtext d) /\
+    ~ (- len (current_line_before_cursor d) <= last_non_blank_of_current_line_position_pinned d).
 Proof.
   exists (mkdoc [97; 98; 10; 10; 99; 100] 3).
   split; [unfold valid; cbn; lia|]. split; [vm_compute; split; discriminate|].
@@ -206,6 +257,19 @@ Proof.
       intros H; injection H as <-. apply down_in_bounds in Eu.
       destruct Hv. destruct after; cbv iota; lia.
   - intros H; injection H as <-. destruct Hv. lia.
+Qed.
+
+Lemma paragraph_total d count flag :
+  (exists r, start_of_paragraph d count flag = Some r) /\
+  (exists r, end_of_paragraph d count flag = Some r).
+Proof.
+  unfold start_of_paragraph, end_of_paragraph. split.
+  - destruct (find_previous_matching_line d count) as [li|]; [|eexists; reflexivity].
+    destruct (li =? 0); [eexists; reflexivity|].
+    destruct (proj1 (up_down_total d (- li) None)) as [u ->]. eexists; reflexivity.
+  - destruct (find_next_matching_line d count) as [li|]; [|eexists; reflexivity].
+    destruct (li =? 0); [eexists; reflexivity|].
+    destruct (proj2 (up_down_total d li None)) as [u ->]. eexists; reflexivity.
 Qed.
 
 (* ---------------------------------------------------------------------- *)
